@@ -616,7 +616,7 @@ pub fn run(ctx: &Ctx) -> i32 {
     ev.assume("aux_acl_enabled = false (the property does not speak about the AUXILIARY feature)");
     ev.assume("identifier values outside the catalogs behave like the catalog representatives (symmetry under renaming)");
     ev.assume("at most two ACL entries are installed at a time");
-    if total.granted == 0 || total.denied == 0 || total.combos.len() < 8 {
+    if total.report.violations.is_empty() && (total.granted == 0 || total.denied == 0 || total.combos.len() < 8) {
         eprintln!("MACHINERY: vacuous C05 run");
         return 2;
     }
